@@ -14,6 +14,16 @@ def opnames():
         if len(p) >= 2: d[int(p[0])] = (p[1], p[2] if len(p) > 2 else '')
     return d
 
+def geom_opnames():
+    rc, out = vlib.harness_run(['geomops'])
+    d = {}
+    for l in out.strip().split('\n'):
+        p = l.split(' ', 1)
+        if len(p) == 2: d[int(p[0])] = (p[1], '')
+    return d
+
+GEOM_IMPORTS = 'From Coq Require Import ZArith List Floats.\nImport ListNotations.\nFrom SCAD Require Import Base.NumF Run.MathOps Run.GeomOps.'
+
 def hexf(tok):
     tok = tok.strip().strip('()')
     try:
@@ -30,16 +40,17 @@ def parse_case(line):
     res = None if m.group(3) == 'None' else ([hexf(t) for t in m.group(4).split(';')] if m.group(4).strip() else [])
     return op, args, res
 
-def run_ranges(prop, ranges, n, seed, per_shard=300, oracle=None):
+def run_ranges(prop, ranges, n, seed, per_shard=300, oracle=None, suite='math', verdict='verdict', model_out='model_out', imports=None, rule=None):
     """ranges: list of (lo, hi). returns dict for bin/check"""
-    names = opnames()
+    names = opnames() if suite == 'math' else geom_opnames()
+    imports = imports or IMPORTS
     lines = []
     for k, (lo, hi) in enumerate(ranges):
-        rc, out = vlib.harness_run(['math', seed * 1000 + k, n // len(ranges), lo, hi])
+        rc, out = vlib.harness_run([suite, seed * 1000 + k, n // len(ranges), lo, hi])
         if rc != 0:
             raise RuntimeError('harness failed: ' + out[-2000:])
         lines += [l for l in out.split('\n') if l.startswith('(')]
-    verd = vlib.run_shards(prop, IMPORTS, 'mcase', 'verdict', lines, per_shard=per_shard)
+    verd = vlib.run_shards(prop, imports, 'mcase', verdict, lines, per_shard=per_shard)
     failures = []
     inexact = 0
     ops_seen = {}
@@ -50,7 +61,7 @@ def run_ranges(prop, ranges, n, seed, per_shard=300, oracle=None):
         if code == 1:
             inexact += 1
         if code >= 2:
-            rc, mo = vlib.coq_eval(prop, IMPORTS, 'model_out %s' % l) if len(failures) < 4 else (0, '(not evaluated)')
+            rc, mo = vlib.coq_eval(prop, imports, '%s %s' % (model_out, l)) if len(failures) < 4 else (0, '(not evaluated)')
             failures.append({'clause': 'model_vs_impl', 'key': names.get(op, ('?',))[0], 'op': op,
                              'function': names.get(op, ('?',))[0], 'args': args, 'implementation': res,
                              'model': ' '.join(mo.split())[:1500], 'verdict': VERDICT_TEXT.get(code, code),
@@ -70,7 +81,7 @@ def run_ranges(prop, ranges, n, seed, per_shard=300, oracle=None):
         op, args, res = parse_case(l)
         samples.append({'function': names.get(op, ('?',))[0], 'args': args, 'implementation': res})
     return {'evaluations': len(lines), 'distinct_nontrivial': distinct, 'samples': samples, 'failures': failures,
-            'rule': 'harness `vh math`: every listed impl called on structured inputs (pairwise distinct magnitudes, '
+            'rule': rule or 'harness `vh math`: every listed impl called on structured inputs (pairwise distinct magnitudes, '
                     'every 5th round special values: +-0, subnormal, 1e300, 1e21; indices in and out of range; lists of length 0..9); '
                     'model evaluated on the float reading inside Coq (vm_compute); verdict 0 = bit-exact, 1 = within 1e-9 relative, >=2 = failure. '
                     'distinct = distinct (function, arguments) pairs',
